@@ -86,8 +86,9 @@ VARIABLES P,           \* parser record (see PInit)
           budget,      \* mutations left
           phase,       \* "text" | "edit"
           D,           \* the document being edited (phase "edit")
-          ops          \* history: editing calls
-vars == <<P, aea, sraised, text, gen, budget, phase, D, ops>>
+          ops,         \* history: editing calls
+          rs           \* render layer (Mode "hist"): caches of the formatter and the last observed output
+vars == <<P, aea, sraised, text, gen, budget, phase, D, ops, rs>>
 
 ----------------------------------------------------------------------------
 \* line classes
@@ -195,7 +196,8 @@ FreshCur == [h |-> NoHdr, k |-> "TopOK"]
 
 \* header attributes extracted from a header line (invalid pairs are skipped, a bad urgency
 \* value leaves the default; k: may the re-formatted header still carry a repeated key)
-ParseHdr(ln) == [h |-> <<ln.h[1], ln.h[2], ln.h[3], IF ln.c = "TopBadUrg" THEN Dflt ELSE ln.h[4], ln.h[5]>>,
+\* (h may be longer than 5: every further element is one extra key=value pair put into other_pairs in place)
+ParseHdr(ln) == [h |-> <<ln.h[1], ln.h[2], ln.h[3], IF ln.c = "TopBadUrg" THEN Dflt ELSE ln.h[4], ln.h[5]>> \o SubSeq(ln.h, 6, Len(ln.h)),
                  k |-> IF ln.c = "TopDupKey" THEN "TopDupKey" ELSE "TopOK"]
 
 MkBlock(cur, chg, au, da, sep, nt) ==
@@ -311,6 +313,91 @@ ModelArgs(op, k) ==
     [] op = "SetUrgency" -> <<114>> [] op = "SetAuthor" -> <<116>> [] op = "SetDate" -> <<117>>
 
 ----------------------------------------------------------------------------
+\* formatting as part of the history (Mode "hist").  Edits address ANY block through the block object;
+\* next to attribute assignment there are the in-place container edits that never pass through an
+\* attribute: other_pairs[k] = v, changes().append / insert / del, add_trailing_line.  Fmt observes
+\* str(changelog) (i = 0) or str(block i).  The reference formatter is a function of the CURRENT document;
+\* the render layer below models formatters that keep text between calls:
+\*   Bug = "BlockRenderCache"  _format memoises per block, dropped by attribute assignment on the block
+\*                             only (in-place container edits do not invalidate)      -> FormatIsCurrent
+\*   Bug = "OlderBlocksMemo"   Changelog._format memoises the text of all blocks but the first, keyed by
+\*                             the number of blocks, dropped by new_block only        -> FormatIsCurrent
+\* With Bug = "none" nothing is kept and FormatIsCurrent states that every observed output is the
+\* reference Format of the document as it is now.
+BlockRenderCache == Bug = "BlockRenderCache"
+OlderBlocksMemo  == Bug = "OlderBlocksMemo"
+
+HistAttrs == {2, 5}         \* attributes assigned in the bounded configuration: version, author (traces: all six)
+\* op = <<name, i, x>>: name, block index (0: the changelog), extra (attribute number / position)
+HistOps(d) ==
+   LET n == Len(d.bl) IN
+   {<<"Fmt", i, 0>> : i \in 0..n}
+   \cup {<<"BSet", i, a>> : i \in 1..n, a \in HistAttrs}
+   \cup {<<nm, i, 0>> : nm \in {"BPair", "ChAppend", "AddTrailing"}, i \in 1..n}
+   \cup {<<"ChInsert", i, 1>> : i \in 1..n}
+   \cup {<<"ChDelete", i, Len(d.bl[i].ch)>> : i \in {j \in 1..n : Len(d.bl[j].ch) > 0}}
+   \cup {<<"NewBlockFull", 0, 0>>} \cup (IF n > 0 THEN {<<"AddChange", 0, 0>>} ELSE {})
+HValid(d, op) ==
+   LET n == Len(d.bl) IN
+   CASE op[1] = "Fmt" -> op[2] \in 0..n
+     [] op[1] \in {"NewBlockFull"} -> TRUE
+     [] op[1] = "AddChange" -> n > 0
+     [] op[1] = "ChInsert" -> op[2] \in 1..n /\ op[3] \in 1..(Len(d.bl[op[2]].ch) + 1)
+     [] op[1] = "ChDelete" -> op[2] \in 1..n /\ op[3] \in 1..Len(d.bl[op[2]].ch)
+     [] OTHER -> op[2] \in 1..n
+InsertAt(s, p, x) == SubSeq(s, 1, p - 1) \o <<x>> \o SubSeq(s, p, Len(s))
+DeleteAt(s, p) == SubSeq(s, 1, p - 1) \o SubSeq(s, p + 1, Len(s))
+\* v: argument tokens (BSet <<value>>, BPair <<pair>>, ChAppend / ChInsert / AddChange <<line id>>,
+\* AddTrailing <<line id>>, NewBlockFull as EditApply)
+HApply(d, op, v) ==
+   LET i == op[2] IN
+   CASE op[1] = "Fmt"         -> d
+     [] op[1] = "BSet"        -> IF op[3] <= 4 THEN [d EXCEPT !.bl[i].h[op[3]] = v[1]]
+                                 ELSE IF op[3] = 5 THEN [d EXCEPT !.bl[i].au = v[1]] ELSE [d EXCEPT !.bl[i].da = v[1]]
+     [] op[1] = "BPair"       -> [d EXCEPT !.bl[i].h = Append(@, v[1])]
+     [] op[1] = "ChAppend"    -> [d EXCEPT !.bl[i].ch = Append(@, [c |-> "Change", id |-> v[1], h |-> <<>>])]
+     [] op[1] = "ChInsert"    -> [d EXCEPT !.bl[i].ch = InsertAt(@, op[3], [c |-> "Change", id |-> v[1], h |-> <<>>])]
+     [] op[1] = "ChDelete"    -> [d EXCEPT !.bl[i].ch = DeleteAt(@, op[3])]
+     [] op[1] = "AddTrailing" -> [d EXCEPT !.bl[i].tr = Append(@, [c |-> "Blank", id |-> v[1], h |-> <<>>])]
+     [] op[1] = "NewBlockFull" -> EditApply(d, "NewBlockFull", v)
+     [] op[1] = "AddChange"   -> EditApply(d, "AddChange", v)
+HModelArgs(op, k) ==
+   CASE op[1] = "NewBlockFull" -> <<400 + 10 * k, 401 + 10 * k, 402 + 10 * k, 403 + 10 * k, Dflt, 405 + 10 * k, 406 + 10 * k, 300>>
+     [] op[1] \in {"ChAppend", "ChInsert", "AddChange"} -> <<200 + k>>
+     [] op[1] = "AddTrailing" -> <<300>>
+     [] OTHER -> <<400 + 10 * k>>
+
+\* --- render layer
+NoText == <<>>                       \* "nothing kept"; a kept text is <<text>>
+RInit == [rc |-> <<>>, om |-> <<>>, out |-> <<>>, fresh |-> FALSE, what |-> 0]
+RBlock(d, r, i) == IF BlockRenderCache /\ i <= Len(r.rc) /\ r.rc[i] # NoText THEN r.rc[i][1] ELSE FormatBlock(d.bl[i])
+RECURSIVE ROlder(_, _, _)
+ROlder(d, r, i) == IF i > Len(d.bl) THEN <<>> ELSE RBlock(d, r, i) \o ROlder(d, r, i + 1)
+RFormat(d, r, i) ==                  \* -> the render layer after observing; .out = <<text>>
+   IF i > 0
+   THEN LET t == RBlock(d, r, i) IN
+        [r EXCEPT !.out = <<t>>, !.fresh = TRUE, !.what = i,
+                  !.rc = IF BlockRenderCache THEN [j \in 1..Len(d.bl) |-> IF j = i THEN <<t>> ELSE (IF j <= Len(r.rc) THEN r.rc[j] ELSE NoText)] ELSE @]
+   ELSE LET n     == Len(d.bl)
+            hit   == OlderBlocksMemo /\ r.om # <<>> /\ r.om[1] = n
+            top   == IF n > 0 THEN RBlock(d, r, 1) ELSE <<>>
+            older == IF hit THEN r.om[2] ELSE ROlder(d, r, 2)
+        IN [r EXCEPT !.out = <<d.ini \o top \o older>>, !.fresh = TRUE, !.what = 0,
+                     !.om = IF OlderBlocksMemo THEN <<n, older>> ELSE @,
+                     !.rc = IF BlockRenderCache
+                            THEN [j \in 1..n |-> IF j = 1 \/ ~hit THEN <<RBlock(d, r, j)>> ELSE (IF j <= Len(r.rc) THEN r.rc[j] ELSE NoText)]
+                            ELSE @]
+\* what an edit drops: attribute assignment (also the assignment of _changes inside add_change) drops the
+\* block's cache; new_block drops the memo of the older blocks; in-place container edits drop nothing
+RInvalidate(r, op) ==
+   LET r1 == [r EXCEPT !.fresh = FALSE] IN
+   CASE op[1] = "BSet" -> [r1 EXCEPT !.rc = [j \in 1..Len(@) |-> IF j = op[2] THEN NoText ELSE @[j]]]
+     [] op[1] = "AddChange" -> [r1 EXCEPT !.rc = [j \in 1..Len(@) |-> IF j = 1 THEN NoText ELSE @[j]]]
+     [] op[1] = "NewBlockFull" -> [r1 EXCEPT !.rc = <<NoText>> \o @, !.om = <<>>]
+     [] OTHER -> r1
+RefOut(d, i) == IF i = 0 THEN Format(d) ELSE FormatBlock(d.bl[i])
+
+----------------------------------------------------------------------------
 \* the generator automaton of deb-changelog(5)
 
 GenInit == [gs |-> "lead", nblk |-> 0, nbody |-> 0, nlead |-> 0, nsep |-> 0,
@@ -344,9 +431,9 @@ Ctl(p) == [st |-> p.st, old |-> p.old, w |-> p.nw, nb |-> p.nb, nonblank |-> p.n
 \* behaviours
 
 Init == /\ P = PInit /\ aea \in AEAs /\ sraised = FALSE /\ text = <<>> /\ gen = GenInit
-        /\ budget = Budget /\ phase = "text" /\ D = EmptyDoc /\ ops = <<>>
+        /\ budget = Budget /\ phase = "text" /\ D = EmptyDoc /\ ops = <<>> /\ rs = RInit
 
-Keep == UNCHANGED <<aea, phase, D, ops>>
+Keep == UNCHANGED <<aea, phase, D, ops, rs>>
 
 \* --- closed configuration: any class in any state
 LConsume(c) ==
@@ -367,7 +454,7 @@ LEof ==
                                         out |-> [w |-> EofWarn(P), dest |-> "none",
                                                  close |-> IF P.nonblank /\ EofBad(P) THEN "eof" ELSE "no", st |-> "END"],
                                         to |-> Ctl(P')])>>))
-   /\ UNCHANGED <<aea, text, gen, budget, D, ops>>
+   /\ UNCHANGED <<aea, text, gen, budget, D, ops, rs>>
 
 \* --- bounded configurations: generator in lock-step, mutations
 Room == Len(text) < MaxLines
@@ -400,21 +487,31 @@ DupStep(m) ==      \* the generated line appears twice
          /\ P' = Eat(p1, l2) /\ text' = text \o <<l1, l2>>
          /\ sraised' = (sraised \/ StrictAfter(P, l1) \/ StrictAfter(p1, l2))
    /\ budget' = budget - 1 /\ Keep
-TextNext == /\ Mode \in {"text", "edit"} /\ phase = "text"
+TextNext == /\ Mode \in {"text", "edit", "hist"} /\ phase = "text"
             /\ \/ \E m \in {"GenLeadBlank", "GenHeader", "GenChange", "GenBlankInBlock", "GenTrailer", "GenBlankBetween"} :
                       GenStep(m) \/ DeleteStep(m) \/ DupStep(m)
                \/ \E c \in Classes : InsertStep(c)
 
 \* --- editing
-EofStep == /\ Mode = "edit" /\ phase = "text"
+EofStep == /\ \/ Mode = "edit"
+              \/ Mode = "hist" /\ budget = Budget /\ GenAccepting(gen) /\ gen.nblk = MaxBlocks   \* complete well-formed texts
+           /\ phase = "text"
            /\ phase' = "edit" /\ D' = PEof(P).doc
-           /\ UNCHANGED <<P, aea, sraised, text, gen, budget, ops>>
+           /\ UNCHANGED <<P, aea, sraised, text, gen, budget, ops, rs>>
 EditStep(op) == /\ Mode = "edit" /\ phase = "edit" /\ Len(ops) < MaxEdits
                 /\ EditEnabled(D, op)
                 /\ D' = EditApply(D, op, ModelArgs(op, Len(ops))) /\ ops' = Append(ops, op)
-                /\ UNCHANGED <<P, aea, sraised, text, gen, budget, phase>>
+                /\ UNCHANGED <<P, aea, sraised, text, gen, budget, phase, rs>>
+
+HistStep == /\ Mode = "hist" /\ phase = "edit" /\ Len(ops) < MaxEdits
+            /\ \E op \in HistOps(D) :
+                 /\ D' = HApply(D, op, HModelArgs(op, Len(ops)))
+                 /\ ops' = Append(ops, op)
+                 /\ rs' = IF op[1] = "Fmt" THEN RFormat(D, rs, op[2]) ELSE RInvalidate(rs, op)
+            /\ UNCHANGED <<P, aea, sraised, text, gen, budget, phase>>
 
 Next == \/ \E c \in Classes : LConsume(c)
+        \/ HistStep
         \/ LEof
         \/ TextNext
         \/ EofStep
@@ -464,6 +561,11 @@ NormalFormEdited == phase = "edit" => NormalFormOf(D)
 \* formatting what was parsed gives the input back whenever nothing was warned about (lenient = strict)
 CleanRoundTrip   == (Mode # "lts" /\ phase = "text" /\ Res.nw = 0 /\ Formattable(Res.doc)) => Format(Res.doc) = text
 
+\* C04 / C15, histories: every observed output is the reference Format of the CURRENT document
+FormatIsCurrent == rs.fresh => rs.out = <<RefOut(D, rs.what)>>
+NormalFormHist  == (Mode = "hist" /\ phase = "edit") => NormalFormOf(D)
+HistFormattable == (Mode = "hist" /\ phase = "edit") => (Formattable(D) /\ Specified(D))
+
 ----------------------------------------------------------------------------
 \* emission for the harness
 
@@ -483,4 +585,8 @@ EmitText == (Emit /\ Mode = "text" /\ (Budget > 0 \/ WellFormedText)) =>
 EmitEdit == (Emit /\ Mode = "edit" /\ phase = "edit") =>
                PrintT(<<"CASE", ToJson([t |-> TextClasses, aea |-> aea, ops |-> ops,
                                         fmt |-> Formattable(D), spec |-> Specified(D), doc |-> Struct(D)])>>)
+LineToks(t) == [i \in 1..Len(t) |-> [c |-> t[i].c, id |-> t[i].id, h |-> t[i].h]]
+EmitHist == (Emit /\ Mode = "hist" /\ phase = "edit" /\ rs.fresh) =>
+               PrintT(<<"CASE", ToJson([t |-> TextClasses, aea |-> aea, ops |-> ops, what |-> rs.what,
+                                        out |-> LineToks(RefOut(D, rs.what)), doc |-> Struct(D)])>>)
 =============================================================================
